@@ -228,11 +228,19 @@ so the creator's – uncompleted for ever -/
 def wUnstarted : List Label :=
   [⟨0, .enterA 1⟩, ⟨0, .mk 0 0⟩, ⟨0, .close 0⟩, ⟨0, .exit⟩]
 
-/-- witness `stream.closed.scope-never-completes`: `aclose()` while the body is suspended inside a block of its own -/
+/-- witness `stream.closed.nested-stream-never-completes`: `aclose()` while the body is iterating a nested stream:
+nobody closes the inner stream in the consumer's context -/
 def wClosed : List Label :=
-  [⟨0, .enterA 1⟩, ⟨0, .mk 0 0⟩, ⟨0, .next 0⟩, ⟨0, .close 0⟩, ⟨0, .exit⟩]
+  [⟨0, .enterA 1⟩, ⟨0, .mk 0 0⟩, ⟨0, .next 0⟩, ⟨0, .next 0⟩, ⟨0, .close 0⟩, ⟨0, .exit⟩]
 
+def nestedGen : Gens := [[.yld 1, .sub 1 [.yld 2, .yld 3], .yld 4]]
+
+/-- (repaired, regression) `aclose()` while the body is suspended inside a block of its own: the wrapper closes the
+source generator, the block is left, everything completes -/
 def blockGen : Gens := [[.block .sync 5 [.yld 1, .yld 2]]]
+
+def wClosedInBlock : List Label :=
+  [⟨0, .enterA 1⟩, ⟨0, .mk 0 0⟩, ⟨0, .next 0⟩, ⟨0, .close 0⟩, ⟨0, .exit⟩]
 
 theorem refuted_body_state : ¬ BodySeesCreationState twoItems wBody := by
   intro h
@@ -265,12 +273,19 @@ theorem refuted_unstarted_completion : ¬ ScopeCompletes twoItems wUnstarted := 
   revert this
   decide
 
-theorem refuted_closed_completion : ¬ ScopeCompletes blockGen wClosed := by
+theorem refuted_closed_completion : ¬ ScopeCompletes nestedGen wClosed := by
   intro h
-  have := h 0 ((lookup (run blockGen wClosed).1.streams 0).getD { g := 0, body := [], node := 0 })
+  have := h 0 ((lookup (run nestedGen wClosed).1.streams 0).getD { g := 0, body := [], node := 0 })
     (by rfl) (by decide)
   revert this
   decide
+
+/-- closing a stream whose body sits inside a block of its own: the block's scope, the stream's scope and the
+creator's scope all complete, in that order, and the consumer has its context back -/
+theorem closed_in_block_completes :
+    let r := run blockGen (wClosedInBlock ++ [⟨0, .probe⟩])
+    r.1.world.events.map (·.name) = [.bsync 5, .task 0] ∧
+    r.2.getLast? = some (.fp { state := none, label := none, group := none }) := by decide
 
 /-- C11.full_statement_refuted -/
 theorem full_statement_refuted : ¬ full_statement :=
